@@ -71,3 +71,14 @@ prop("C03", "fault_enumeration", (60, 900),
           "(every position for a sample of small proofs in the thorough tier); each faulted copy must be rejected by verify / verify_compressed; the proof must also be rejected "
           "under another circuit's verifier data.",
      note="A fault on absorbed data is rejected only with overwhelming probability (<= 2^-64 by the generator's floor q*log2(N) >= 64); panics count as 'not accepted' here and are reported under C18.")
+
+prop("C04", "fault_enumeration", (160, 2500),
+     rule="one run = one accepted honest PLONK proof read as a protocol history; a case = one alteration of one transcript component: EVERY absorbed element of the proof "
+          "(every word/byte of every cap entry, every opening, every commit-phase cap entry, every final-polynomial coefficient, the pow witness), every public input, every "
+          "byte of the circuit digest, and every FRI/degree parameter of the statement (rate, cap height, pow bits, query count, strategy kind and parameter, hiding, degree bits, "
+          "arity list) - the matrix is enumerated completely per proof. After each alteration the challenges are recomputed with the public get_challenges and every challenge that "
+          "the round model places after the component must differ. distinct = distinct (proof scenario, altered position); every executed alteration is non-trivial (value changed, challenges recomputed)",
+     technique="deterministic simulation: message alteration per protocol round of an honest proof history + causality check against a round model of the transcript",
+     text="Complete enumeration, per sampled proof, of single-component alterations of the Fiat-Shamir transcript (statement fields, public inputs, every absorbed proof element) "
+          "with a causality oracle: all challenges drawn after the altered component must change. Demands dependence, not a particular absorption format.",
+     note="PLONK transcripts with Poseidon and Keccak, with and without lookups; the STARK transcript is covered once the STARK family exists (see DESIGN). A challenge word may coincide by chance with probability 2^-64.")
